@@ -230,6 +230,11 @@ class Name(_LeafWithoutNewlines):
                 return node.parent  # The try_stmt.
             return None
 
+        if type_ == 'argument' and node.children[1] == ':=' \
+                and self is node.children[0]:
+            # An assignment expression that is directly a call argument.
+            return node
+
         while node is not None:
             if node.type == 'suite':
                 return None
